@@ -314,7 +314,12 @@ class DeepInliner(Inliner):
                 return cs[0]
             if isinstance(src[1].func, ast.Name):
                 return None  # the original was a call of a variable: nothing reliable is known about the target
-        return super()._resolve(ctx, call)
+        callee = super()._resolve(ctx, call)
+        # a call a function makes to itself stays a call: unrolling a recursion a few levels deep explains nothing (the label
+        # analysis reads `label(parent)` computed on demand as such, see c17_labels.recursive_label_call)
+        if callee is not None and src is not None and getattr(src[0], "fq", None) == callee.fq and not isinstance(callee.node, ast.Lambda):
+            return None
+        return callee
 
     # ------------------------------------------------------------------ local closures
     def _try(self, ctx: FuncInfo, call: ast.AST, form: str, taken: set[str], origin: dict, stack: tuple[str, ...]):
@@ -821,6 +826,36 @@ def fuse_loops(fn: ast.FunctionDef) -> bool:
 # --------------------------------------------------------------------------- loops over literal tables
 
 
+def record_fields_of(repo, mod, call: ast.AST) -> dict | None:
+    """`Row("a", "b", f)` where Row is a repo NamedTuple / dataclass without a constructor of its own and the arguments are
+    constants / plain names  ->  {field: argument} (plus the positions for tuple-style access)"""
+    if not (isinstance(call, ast.Call) and isinstance(call.func, ast.Name) and mod is not None and repo is not None):
+        return None
+    if any(isinstance(a, ast.Starred) for a in call.args) or any(k.arg is None for k in call.keywords):
+        return None
+    if not all(isinstance(a, (ast.Constant, ast.Name, ast.Attribute)) for a in [*call.args, *[k.value for k in call.keywords]]):
+        return None
+    ci = mod.classes.get(call.func.id)
+    if ci is None:
+        fq = mod.imports.get(call.func.id)
+        ci = repo.classes.get(fq) if fq else None
+    if ci is None or repo.lookup_method(ci, "__init__") is not None or repo.lookup_method(ci, "__new__") is not None:
+        return None
+    fields = [a for c in reversed(repo.mro(ci)) for a in c.ann_attrs]
+    if len(call.args) > len(fields) or any(k.arg not in fields for k in call.keywords):
+        return None
+    env = dict(zip(fields, call.args))
+    env.update({k.arg: k.value for k in call.keywords})
+    for c in repo.mro(ci):
+        for f_, dflt in c.class_attrs.items():
+            if f_ in fields and f_ not in env and isinstance(dflt, ast.Constant):
+                env[f_] = dflt
+    if set(env) != set(fields):
+        return None
+    env["#order"] = fields  # type: ignore[assignment]
+    return env
+
+
 def unroll_literal_loops(fn: ast.FunctionDef, owner: FuncInfo | None = None, repo: Repo | None = None) -> bool:
     """`for k, (a, b) in {"x": (p, q), "y": (r, s)}.items(): body`  ->  body[k:="x", a:=p, b:=q]; body[k:="y", a:=r, b:=s]
 
@@ -860,9 +895,12 @@ def unroll_literal_loops(fn: ast.FunctionDef, owner: FuncInfo | None = None, rep
             if how == "values":
                 return list(lit.values)
             return [ast.Tuple(elts=[k, v], ctx=ast.Load()) for k, v in zip(lit.keys, lit.values)]
-        if how == "self" and isinstance(lit, (ast.List, ast.Tuple)) and lit.elts and len(lit.elts) <= 8 and not any(isinstance(x, ast.Starred) for x in lit.elts) and all(isinstance(x, (ast.Tuple, ast.Constant)) for x in lit.elts):
+        if how == "self" and isinstance(lit, (ast.List, ast.Tuple)) and lit.elts and len(lit.elts) <= 8 and not any(isinstance(x, ast.Starred) for x in lit.elts) and all(isinstance(x, (ast.Tuple, ast.Constant)) or record_fields(x) is not None for x in lit.elts):
             return list(lit.elts)
         return None
+
+    def record_fields(call: ast.AST) -> dict | None:
+        return record_fields_of(repo, owner.module if owner is not None else None, call)
 
     def match(tgt: ast.expr, val: ast.expr, env: dict) -> bool:
         if isinstance(tgt, ast.Name):
@@ -899,6 +937,28 @@ def unroll_literal_loops(fn: ast.FunctionDef, owner: FuncInfo | None = None, rep
                     return node
 
                 def visit_Lambda(self, node):  # noqa: N802
+                    return node
+
+                def visit_Attribute(self, node, env=env):  # noqa: N802
+                    # row.field of a table row that is a small record: the argument the row was built with
+                    if isinstance(node.ctx, ast.Load) and isinstance(node.value, ast.Name) and node.value.id in env:
+                        rec = record_fields(env[node.value.id])
+                        if rec is not None and node.attr in rec and node.attr != "#order":
+                            return _loc(_recopy(rec[node.attr]), node)
+                    return self.generic_visit(node)
+
+                def visit_Subscript(self, node, env=env):  # noqa: N802
+                    if isinstance(node.ctx, ast.Load) and isinstance(node.value, ast.Name) and node.value.id in env and isinstance(node.slice, ast.Constant) and isinstance(node.slice.value, int):
+                        rec = record_fields(env[node.value.id])
+                        if rec is not None and 0 <= node.slice.value < len(rec["#order"]):
+                            return _loc(_recopy(rec[rec["#order"][node.slice.value]]), node)
+                    return self.generic_visit(node)
+
+                def visit_Call(self, node):  # noqa: N802
+                    self.generic_visit(node)
+                    # getattr(obj, "name") with the name now a constant is the attribute
+                    if isinstance(node.func, ast.Name) and node.func.id == "getattr" and len(node.args) == 2 and not node.keywords and isinstance(node.args[1], ast.Constant) and isinstance(node.args[1].value, str) and node.args[1].value.isidentifier():
+                        return _loc(ast.Attribute(value=node.args[0], attr=node.args[1].value, ctx=ast.Load()), node)
                     return node
 
             new_body += [Sub().visit(_recopy(st)) for st in loop.body]
